@@ -240,6 +240,14 @@ func decimalLiteral(r rng, maxDigits int) string {
 	if r.chance(0.6) {
 		dot = r.intn(n + 1)
 	}
+	if r.chance(0.08) {
+		// whole words of leading zeros (the scanner stores 19-digit groups)
+		b.WriteString(strings.Repeat("0", r.pick(18, 19, 20, 37, 38, 39, 57)))
+		if dot < 0 && r.chance(0.3) {
+			b.WriteByte('.')
+			b.WriteString(strings.Repeat("0", r.pick(1, 18, 19, 20, 38)))
+		}
+	}
 	for i := 0; i < n; i++ {
 		if i == dot {
 			b.WriteByte('.')
